@@ -83,6 +83,20 @@ func c15Scenario() *explore.Scenario {
 			switch mode {
 			case 0, 1:
 				scfg.EncryptedClientHelloKeys = []tls.EncryptedClientHelloKey{ech.Key}
+				// a server in the middle of a key rotation holds several keys; the client's config may be
+				// for the first, the last or the middle one
+				switch x.Choose("srv.keys", 4) {
+				case 1:
+					scfg.EncryptedClientHelloKeys = []tls.EncryptedClientHelloKey{other.Key, ech.Key}
+					what += " server-keys=[another, this]"
+				case 2:
+					scfg.EncryptedClientHelloKeys = []tls.EncryptedClientHelloKey{ech.Key, other.Key}
+					what += " server-keys=[this, another]"
+				case 3:
+					third := peer.MakeECH(peer.ECHParams{ConfigID: cfgID ^ 0x21, AEADs: aeads, MaxNameLen: maxName, PublicName: public, KeyLabel: "the server's oldest ech key"})
+					scfg.EncryptedClientHelloKeys = []tls.EncryptedClientHelloKey{other.Key, ech.Key, third.Key}
+					what += " server-keys=[another, this, a third]"
+				}
 			case 2:
 				scfg.EncryptedClientHelloKeys = []tls.EncryptedClientHelloKey{other.Key}
 			}
